@@ -508,6 +508,9 @@ func checkC03Pairing(c *Ctx, et interface{}) {
 	checkLeaveFilter(c)
 	checkAssignValidation(c)
 	checkSeatLookups(c, "R8")
+	checkJoinOperation(c, "R7")
+	checkReserveBranches(c, "R5")
+	checkNoKnownNilErrorReturn(c, "R3", func(f *ssa.Function) bool { return (inPkg(p, f, "") || inSeatManagerPkg(p, f)) && f.Parent() == nil }, 20)
 	checkSeatManagerConstruction(c, "R8")
 	checkRandomSeatDraw(c, "R2")
 
